@@ -253,10 +253,10 @@ impl Exec {
         ev["h"] = op["h"].clone();
       }
       "Sweep" => {
-        // 2147483647 stands for "the largest work unit there is" (usize::MAX; TLC's integers are 32-bit,
+        // 1000000 stands for "the largest work unit there is" (usize::MAX; TLC's integers are 32-bit,
         // and any unit beyond the table means the same to the specification)
         let w = op["w"].as_u64().unwrap() as usize;
-        self.heap.sweep(if w == 2147483647 { usize::MAX } else { w });
+        self.heap.sweep(if w == 1_000_000 { usize::MAX } else { w });
         ev["w"] = json!(w);
       }
       "CreateCounter" => {
@@ -363,13 +363,10 @@ fn random_op(x: &Exec, rng: &mut Rng, longs: &[&str], shorts: &[&str]) -> Value 
     let k = rng.below(100);
     let growable = !x.counter_active();
     if k < 24 {
-      if growable {
-        return json!({"op": "AllocString", "s": pick_str(rng)});
-      }
+      // (ordinary strings may be allocated while a counter is outstanding: the table then outgrows the counter)
+      return json!({"op": "AllocString", "s": pick_str(rng)});
     } else if k < 33 {
-      if growable {
-        return json!({"op": "AllocStatic", "s": pick_str(rng)});
-      }
+      return json!({"op": "AllocStatic", "s": pick_str(rng)});
     } else if k < 37 {
       if growable {
         return json!({"op": "AllocTemp"});
@@ -398,7 +395,7 @@ fn random_op(x: &Exec, rng: &mut Rng, longs: &[&str], shorts: &[&str]) -> Value 
       }
     } else if k < 94 {
       let len = x.table_len();
-      let ws = [1, 2, 3, len.max(1), len + 5, 10_000, len.saturating_sub(1).max(1), 2147483647];
+      let ws = [1, 2, 3, len.max(1), len + 5, 10_000, len.saturating_sub(1).max(1), 1_000_000];
       return json!({"op": "Sweep", "w": ws[rng.below(ws.len())]});
     } else if k < 96 {
       if growable {
